@@ -12,7 +12,7 @@ import z3
 from . import sym
 from .calls import CallMixin
 from .comp import CompMixin
-from .core import Ctx, Explorer, Obligation, PathEnd, PyBreak, PyContinue, PyRaise, PyReturn
+from .core import guarded_check, Ctx, Explorer, Obligation, PathEnd, PyBreak, PyContinue, PyRaise, PyReturn
 from .interp import Interp
 from .model import Env, Heap, PyObj
 from .stmts import StmtMixin
@@ -197,7 +197,7 @@ def _run_path(m: Machine, ctx: Ctx, module, cls, fnode, contract, key, res, case
             raise Unsupported("break/continue outside loop")
         outcome = ("return", NONE)  # a block contract: `continue`/`break` of the enclosing loop leaves the region normally
 
-    if getattr(contract, "check_frame", False):
+    if getattr(contract, "check_frame_syntactic", False):
         for msg in _frame_check(m, env, contract):
             if msg not in res.errors:
                 res.errors.append(msg)
@@ -205,7 +205,7 @@ def _run_path(m: Machine, ctx: Ctx, module, cls, fnode, contract, key, res, case
     chk = z3.Solver()
     chk.set("timeout", 250)
     chk.add(*ctx.pc)
-    if chk.check() == z3.unsat and not _late_pruned(ctx):
+    if guarded_check(chk, 250) == z3.unsat and not _late_pruned(ctx):
         msg = "vacuity guard: path condition unsatisfiable at exit (contradictory assumed contracts/invariants) on path %s" % (tuple(ctx.decisions),)
         if msg not in res.errors:
             res.errors.append(msg)
@@ -363,7 +363,7 @@ def _late_pruned(ctx):
         s = z3.Solver()
         s.set("timeout", 400)
         s.add(*ctx.pc[:n])
-        return s.check() == z3.unsat
+        return guarded_check(s, 400) == z3.unsat
 
     # unsatisfiability is monotone in the prefix length: binary search for the first decision whose prefix is unsat
     pos = list(ctx.dec_pos)
